@@ -78,3 +78,96 @@ def u_haldane(ctx):
                                                          GM + "KosambiMapFunction.py:KosambiMapFunction.invmapfn"])
 def u_kosambi(ctx):
     mapfn_lemmas(ctx, "Kosambi")
+
+
+# ---------------------------------------------------------------------------
+# sequential genetic distances (mode A2, loop invariant)
+from pyvc import npmodel, loopcut
+from pyvc.arr import EArr
+from pyvc.sym import cur, _t, fresh_int
+
+
+def prove_gdist1g(ctx, relpath, clsname):
+    target = "%s:%s.gdist1g" % (relpath, clsname)
+    box = {}
+
+    def spec(chr_, gp, j):
+        return z3.If(z3.Or(j == 0, chr_.at(j) != chr_.at(j - 1)), sym.INF, gp.at(j) - gp.at(j - 1))
+
+    def inv(st):
+        out, start, stop = st["out"], st["start"], st["stop"]
+        k, N = _t(st["_k"]), _t(st["_N"])
+        chr_, gp = box["chr"], box["gp"]
+        n = _t(chr_.shape[0])
+        j = z3.Int("q_j")
+        bound = z3.If(k < N, start.at(k), n)
+        d = {}
+        if st["_phase"] == "preserve":
+            # intermediate assertion: inside the run just written the chromosome label is constant
+            kk = k - 1
+            sk = start.at(kk)
+            d["hint:run-in-range"] = z3.And(0 <= sk, sk < stop.at(kk), stop.at(kk) <= n, stop.at(kk) == sk + box["counts"].at(kk))
+            d["hint:next-bound-is-stop"] = bound == stop.at(kk)
+            uq = box["uniq"]
+            d["hint:prev-run-adjacent"] = z3.Implies(kk > 0, z3.And(start.at(kk - 1) + box["counts"].at(kk - 1) == sk, start.at(kk - 1) < sk,
+                                                                  uq.at(kk - 1) < uq.at(kk)))
+            d["hint:prev-run-label"] = z3.Implies(kk > 0, chr_.at(sk - 1) == uq.at(kk - 1))
+            d["hint:this-run-label"] = chr_.at(sk) == uq.at(kk)
+            d["hint:first-run-starts-at-0"] = z3.Implies(kk == 0, sk == 0)
+            d["hint:run-start-is-a-chromosome-start"] = z3.Or(sk == 0, chr_.at(sk) != chr_.at(sk - 1))
+            d["hint:run-constant"] = z3.ForAll([j], z3.Implies(z3.And(sk < j, j < stop.at(kk)), chr_.at(j) == chr_.at(j - 1)))
+            d["hint:written-start"] = out.at(sk) == sym.INF
+            d["hint:written-run"] = z3.ForAll([j], z3.Implies(z3.And(sk < j, j < stop.at(kk)), out.at(j) == gp.at(j) - gp.at(j - 1)))
+        d["stop==start+counts"] = z3.ForAll([j], z3.Implies(z3.And(0 <= j, j < N), stop.at(j) == start.at(j) + box["counts"].at(j)))
+        d["prefix-done"] = z3.ForAll([j], z3.Implies(z3.And(0 <= j, j < bound), out.at(j) == spec(chr_, gp, j)))
+        return d
+    f = loopcut.Extracted(target, loop_specs={"0": inv}, overrides={
+        "check_is_ndarray": lambda *a: None, "check_ndarray_dtype_is_integer": lambda *a: None,
+        "check_ndarray_dtype_is_floating": lambda *a: None})
+    ctx.trust("+inf is an opaque constant (only stored and compared)", "numpy basic slicing semantics incl. clipping")
+    ex = ctx.explorer()
+    real_unique = npmodel.EL_FUNCS["unique"]
+
+    def thunk():
+        e = cur()
+        n = fresh_int("n", 0)
+        chr_ = EArr.fresh("chr", (n,), numpy.int64)
+        gp = EArr.fresh("genpos", (n,), numpy.float64)
+        q = z3.Int("q_s")
+        e.assume(z3.ForAll([q], z3.Implies(z3.And(0 <= q, q < n.t - 1), chr_._fn(q) <= chr_._fn(q + 1))))   # pre: sorted by chromosome
+        box.update(chr=chr_, gp=gp)
+
+        def unique(a, **kw):
+            r = real_unique(a, **kw)
+            box["counts"] = r[2]
+            box["uniq"] = r[0]
+            return r
+        npmodel.EL_FUNCS["unique"] = unique
+        try:
+            out = f(None, chr_, gp)
+        finally:
+            npmodel.EL_FUNCS["unique"] = real_unique
+        j1 = z3.Int(e.fresh_name("j"))
+        e.assume(z3.And(0 <= j1, j1 < n.t))
+        nm = clsname + ".gdist1g"
+        e.prove(nm + ":post:shape", z3.And(out.ndim == 1, _t(out.shape[0]) == n.t))
+        e.prove(nm + ":post:+inf-at-chromosome-starts-else-first-difference", out.at(j1) == spec(chr_, gp, j1))
+        e.prove(nm + ":canary:zero-at-chromosome-starts", out.at(j1) == z3.If(z3.Or(j1 == 0, chr_.at(j1) != chr_.at(j1 - 1)),
+                                                                          z3.RealVal(0), gp.at(j1) - gp.at(j1 - 1)), expect="fail", timeout_ms=1500)
+        return out
+    with npmodel.patched_numpy():
+        outs = ex.explore(thunk)
+    ctx.absorb(ex)
+    raised = [o for o in outs if isinstance(o, sym.Raised)]
+    ctx.record(clsname + ".gdist1g:noraise", not raised, kind="noraise", detail="; ".join(repr(r) + r.tb[-800:] for r in raised[:1]))
+    ctx.record(clsname + ".gdist1g:every-loop-cut", f.loops_cut == set(f.loops), kind="cover", detail=str(f.loops))
+
+
+@unit(P, "loop[StandardGeneticMap.gdist1g]", "A2", targets=[GM + "StandardGeneticMap.py:StandardGeneticMap.gdist1g"])
+def u_gd1_std(ctx):
+    prove_gdist1g(ctx, GM + "StandardGeneticMap.py", "StandardGeneticMap")
+
+
+@unit(P, "loop[ExtendedGeneticMap.gdist1g]", "A2", targets=[GM + "ExtendedGeneticMap.py:ExtendedGeneticMap.gdist1g"])
+def u_gd1_ext(ctx):
+    prove_gdist1g(ctx, GM + "ExtendedGeneticMap.py", "ExtendedGeneticMap")
